@@ -13,7 +13,7 @@ use rand::SeedableRng;
 use serde_json::{json, Value as J};
 
 fn rf(r: &mut Sm) -> f64 {
-    match r.below(6) { 0 => 0.0, 1 => r.log_uniform(1e-12, 1e12), 2 => -r.unit(), 3 => 0.1, 4 => f64::MIN_POSITIVE, _ => r.range(0.0, 2.0) }
+    match r.below(8) { 0 => 0.0, 1 => r.log_uniform(1e-12, 1e12), 2 => -r.unit(), 3 => 0.1, 4 => f64::MIN_POSITIVE, 5 => *r.pick(&[5e-324, 1.1e-308, -0.0, f64::MAX, -f64::MAX, 1e-310]), _ => r.range(0.0, 2.0) }
 }
 fn ru(r: &mut Sm) -> u64 { match r.below(4) { 0 => 0, 1 => u64::MAX, 2 => r.below(5000), _ => r.next() } }
 fn rb(r: &mut Sm) -> bool { r.coin() }
@@ -83,7 +83,7 @@ fn same_chain<S: Settings>(a: &S, b: &S) -> Result<bool, String> {
     Ok(ra == rb)
 }
 
-pub fn one<S: Settings + serde::Serialize + serde::de::DeserializeOwned>(name: &str, s: &S, sane: Option<&S>, case: u64, cases: &mut Cases, rep: &mut Report) {
+pub fn one<S: Settings + serde::Serialize + serde::de::DeserializeOwned + std::fmt::Debug>(name: &str, s: &S, sane: Option<&S>, case: u64, cases: &mut Cases, rep: &mut Report) {
     rep.evaluations += 1;
     let j = match serde_json::to_value(s) { Ok(j) => j, Err(e) => { rep.violation("serde.serialize", &format!("{name}: serialisation failed: {e}"), json!({"kind": "c19", "preset": name, "case": case})); return; } };
     let text = serde_json::to_string(s).unwrap();
@@ -92,6 +92,13 @@ pub fn one<S: Settings + serde::Serialize + serde::de::DeserializeOwned>(name: &
         Err(e) => rep.violation("serde.deserialize", &format!("{name}: deserialisation of its own JSON failed: {e}"), json!({"kind": "c19", "preset": name, "case": case, "json": j})),
         Ok(b) => {
             let j2 = serde_json::to_value(&b).unwrap();
+            // field by field on the typed values (a serialiser that maps two different values to the same JSON is invisible in a JSON-to-JSON comparison)
+            let (da, db) = (format!("{s:?}"), format!("{b:?}"));
+            if da != db {
+                let at = da.bytes().zip(db.bytes()).position(|(x, y)| x != y).unwrap_or(0);
+                let ctx = |t: &str| t[at.saturating_sub(60).min(t.len())..(at + 40).min(t.len())].to_string();
+                rep.violation("serde.roundtrip_fields", &format!("{name}: a field of the decoded settings differs from the original: ...{} vs ...{}", ctx(&db), ctx(&da)), json!({"kind": "c19", "preset": name, "case": case, "json": j, "debug": da}));
+            }
             if j2 != j { rep.violation("serde.roundtrip", &format!("{name}: decoded settings differ from the original: {} vs {}", j2, j), json!({"kind": "c19", "preset": name, "case": case, "json": j})); }
             if let Some(sane) = sane {
                 let sb: S = serde_json::from_str(&serde_json::to_string(sane).unwrap()).unwrap();
